@@ -140,6 +140,48 @@ def pinch(rng, l):
     return Lattice(newpos, newe, newc)
 
 
+def ring_from_polygon(pts):
+    """an open lattice that is one closed ring through the given (unwrapped) points: vertices at pts mod 1, crossings = difference of the cells"""
+    pts = np.asarray(pts, dtype=float)
+    n = len(pts)
+    cell = np.floor(pts).astype(int)
+    e = np.array([[i, (i + 1) % n] for i in range(n)])
+    c = np.array([cell[(i + 1) % n] - cell[i] for i in range(n)])
+    return Lattice(pts - cell, e, c)
+
+
+def star_ring(rng, n=None, centre=None):
+    """a random *non-convex* simple polygon (star-shaped about its centre, radii varying by a factor of up to eight) placed across the cell walls: a wall that
+    misses the centre meets its boundary four, six, ... times - the only plaquettes for which 'crosses a wall' and 'crosses it exactly twice' differ.
+    Returned anticlockwise, so the ring is its single plaquette."""
+    n = int(rng.integers(7, 15)) if n is None else n
+    ang = np.sort(rng.uniform(0, 2 * np.pi, size=n))
+    while np.max(np.diff(np.concatenate([ang, [ang[0] + 2 * np.pi]]))) > 2.5:         # no gap of more than ~143 degrees: the centre stays inside
+        ang = np.sort(rng.uniform(0, 2 * np.pi, size=n))
+    r = np.where(rng.random(n) < 0.5, rng.uniform(0.04, 0.09, size=n), rng.uniform(0.2, 0.32, size=n))
+    c = rng.uniform(0, 1, size=2) if centre is None else np.asarray(centre, dtype=float)
+    pts = c + np.stack([r * np.cos(ang), r * np.sin(ang)], axis=1)
+    return ring_from_polygon(pts)
+
+
+def comb_ring(rng, teeth=None, vertical=None):
+    """a comb: `teeth` rectangular teeth joined by a back, the teeth reaching through a cell wall (x = 1 or y = 1), jittered to be generic"""
+    teeth = int(rng.integers(2, 5)) if teeth is None else teeth
+    vertical = bool(rng.integers(2)) if vertical is None else vertical
+    w = 0.8 / (2 * teeth - 1)
+    pts = [(0.7, 0.1), ]
+    for t in range(teeth):
+        y0 = 0.1 + 2 * t * w
+        pts += [(1.25, y0), (1.25, y0 + w)]
+        if t < teeth - 1:
+            pts += [(0.85, y0 + w), (0.85, y0 + 2 * w)]
+    pts += [(0.7, 0.1 + (2 * teeth - 1) * w)]
+    pts = np.array(pts) + rng.uniform(-0.01, 0.01, size=(len(pts), 2)) + np.array([rng.uniform(-0.04, 0.04), rng.uniform(-0.04, 0.04)])
+    if vertical:
+        pts = pts[:, ::-1][::-1]                                                      # mirror in the diagonal, reversed to stay anticlockwise
+    return ring_from_polygon(pts)
+
+
 def voronoi(rng, N, shift=None):
     pts = rng.uniform(size=(N, 2))
     shift = bool(rng.integers(2)) if shift is None else shift
